@@ -64,7 +64,13 @@ def make_spec(rng, t, opts):
     spec['hp'] = MARKER[t['hp']]
     spec['inputs'] = [(c03.INPUT_NAMES[i], multiline(rng, ', '.join(c03.feel_item(x) for x in ic['values'])) if ic['values'] is not None else None)
                       for i, ic in enumerate(t['inputs'])]
-    spec['outputs'] = [(c03.NAMES[oc['name']] if oc['name'] is not None else None,
+    # a component name of several words is also drawn wrapped over two lines or with a run of blanks: the name it denotes stays the normal form
+    # (seeded change C19_d: the evaluator's result keys kept the inner line break / blanks of the drawn cell)
+    def drawn_name(nm):
+        if ' ' in nm and rng.random() < 0.6:
+            return nm.replace(' ', rng.choice(['\n', '   ', ' \n ']))
+        return nm
+    spec['outputs'] = [(drawn_name(c03.NAMES[oc['name']]) if oc['name'] is not None else None,
                         multiline(rng, ', '.join(c03.feel_atom(a) for a in oc['values'])) if oc['values'] is not None else None) for oc in t['outputs']]
     rules = []
     for r, rule in enumerate(t['rules']):
